@@ -33,6 +33,11 @@ class Construction:
     """delayed, see #delayed_inizialize_positional_fields"""
     pass
 
+  def clone(self):
+    cpy = super().clone()
+    cpy._positional_fieldnames = list(self._positional_fieldnames)
+    return cpy
+
   def _initialize_tags(self, strings):
     first_tag = len(strings)
     tagnames = []
